@@ -176,7 +176,20 @@ def run(rep):
         names = names_loaded(e)
         return bool(names & tainted_names) or 'request.path' in norm(e)
     path_pieces = [p for p in ps if is_path_tainted(p)]
-    query_pieces = [p for p in ps if 'query_string' in norm(p)]
+    # names derived from request.query_string (fixpoint over the assignments of dispatch)
+    qvars = set()
+    grew = True
+    while grew:
+        grew = False
+        for s_ in stmts_of(f.node):
+            if isinstance(s_, ast.Assign) and len(s_.targets) == 1 and isinstance(s_.targets[0], ast.Name) and \
+                    s_.targets[0].id not in qvars and ('query_string' in norm(s_.value) or names_loaded(s_.value) & qvars):
+                qvars.add(s_.targets[0].id)
+                grew = True
+
+    def is_query(e):
+        return 'query_string' in norm(e) or bool(names_loaded(e) & qvars)
+    query_pieces = [p for p in ps if is_query(p) and not is_path_tainted(p)]
     root_pieces = [p for p in ps if 'url_root' in norm(p) or 'host_url' in norm(p)]
     ok = len(path_pieces) >= 1
     rep.check('R07.b', fkey(f, 'Location has the canonical path'), ok and any(npv in names_loaded(p) for p in path_pieces),
@@ -196,10 +209,31 @@ def run(rep):
                   'decoded path is URL-quoted before entering the Location: %s' % short(p) if good else
                   'the decoded request path reaches redirect() without URL-quoting%s: a segment containing ?, # or %% makes the '
                   'Location name a different resource' % why, app, rst)
-    ok = len(query_pieces) == 1 and norm(query_pieces[0]).startswith('request.query_string') and \
-        not (isinstance(query_pieces[0], ast.Call) and call_tail(query_pieces[0]) in QUOTERS)
+    def query_form_ok(e, selfname=None, depth=0):
+        """request.query_string, possibly decoded, possibly percent-encoded by a quoter whose safe set keeps the
+        query's own structure ('%', '&', '=', '+') -- i.e. an already encoded query is not encoded twice."""
+        if depth > 4:
+            return False
+        if norm(e) == 'request.query_string' or (selfname and isinstance(e, ast.Name) and e.id == selfname):
+            return True
+        if isinstance(e, ast.Call) and isinstance(e.func, ast.Attribute) and e.func.attr == 'decode':
+            return query_form_ok(e.func.value, selfname, depth + 1)
+        if isinstance(e, ast.Call) and call_tail(e) in QUOTERS and e.args:
+            safe = kwarg(e, 'safe') or (e.args[3] if len(e.args) > 3 and call_tail(e) == 'url_quote' else None) or \
+                (e.args[1] if len(e.args) > 1 and call_tail(e) == 'quote' else None)
+            sv = repo.try_fold(safe, app) if safe is not None else None
+            return isinstance(sv, str) and all(ch in sv for ch in '%&=+') and query_form_ok(e.args[0], selfname, depth + 1)
+        return False
+    ok = len(query_pieces) == 1
+    if ok:
+        q = query_pieces[0]
+        if isinstance(q, ast.Name):
+            asg = [s_.value for s_ in stmts_of(f.node) if isinstance(s_, ast.Assign) and norm(s_.targets[0]) == q.id]
+            ok = bool(asg) and all(query_form_ok(v, q.id) for v in asg) and any(query_form_ok(v) for v in asg)
+        else:
+            ok = query_form_ok(q)
     rep.check('R07.b', fkey(f, 'query piece'), ok, 'the query string is passed through unchanged (not re-quoted)' if ok else
-              'the query string is missing from the Location or is re-quoted: %s' % [norm(q) for q in query_pieces], app, rst)
+              'the query string is missing from the Location, altered or re-quoted: %s' % [norm(q) for q in query_pieces], app, rst)
     ok = len(root_pieces) == 1 and norm(root_pieces[0]).startswith('request.url_root')
     rep.check('R07.b', fkey(f, 'prefix piece'), ok, 'the prefix is request.url_root (scheme, host, script root)' if ok else
               'the Location prefix is not request.url_root', app, rst)
